@@ -254,8 +254,16 @@ public:
         if(status)
             handle_perror(status, "Failed to destroy filter TLS");
     }
+    //! Tests the end_of_input mark of this thread and takes it off the thread.
+    /** The mark belongs to the invocation of the input filter that called flow_control::stop() on this thread and is
+        consumed when that invocation returns: an invocation that encloses it (the body waited for nested work and the
+        thread ran the next input task meanwhile) must not see it. **/
     bool my_tls_end_of_input() {
-        return end_of_input_tls.get() != nullptr;
+        if( end_of_input_tls.get() != nullptr ) {
+            end_of_input_tls.set(nullptr);
+            return true;
+        }
+        return false;
     }
     void set_my_tls_end_of_input() {
         end_of_input_tls.set(this);
